@@ -66,7 +66,8 @@ META = {
                     'compared with the models (correspondence) but not part of the property oracle',
                     'direct interpolation on rows with positive off-diagonals (positive/negative splitting of the formula): '
                     'structure by theorem, values by correspondence only (the property states formulas for M-matrices)'],
-    'partial': ['air_row_spec / block_air_row_spec are about the model row with exact, verified local solves; '
+    'partial': ["generated_*_partial (extension E58): theorems about the Lean definitions GENERATED from the Python wrappers of pyamg/classical/interpolate.py (direct / classical / injection / one-point: call order copy -> eliminate_zeros -> remove_strong_FF (modified only) -> eliminate_zeros -> multiply -> pass 1 -> pass 2, which object's arrays each kernel receives, no in-place operation on A / C / splitting, invalid input raises TypeError) are evaluated on FINITE grids of scenarios (A / C sparse or not, csr/csc/bsr, theta None/0.25, norm, modified, by_val, block size 1/2, failing conversion) with the sparse operations opaque; that the kernels only READ the arrays of A is not part of these theorems (const-ness of the kernel signatures is pinned by Generated/Facts.lean)",
+                'air_row_spec / block_air_row_spec are about the model row with exact, verified local solves; '
                 'air_row_of_exact_solve / block_air_row_of_exact_solves: the verification can only fail when a local system has no '
                 'exact solution (or, blocks, the 1e-15 drop test drops a non-zero). That the QR / least-squares solve of the code is '
                 'exact is a hypothesis checked per instance (|R - R_exact| <= 1e-9 relative on strictly diagonally dominant local '
@@ -111,7 +112,8 @@ META = {
                     '1e-8 there and raised a false alarm on a 12-unknown local system whose Krylov space is exhausted at step 9)',
                     'AIR: (R A)[i, j] = 0 is checked on the documented neighbourhood of row i (strongly connected F-points '
                     'within `degree`), which contains the pattern of the returned row (local_air eliminates zeros)'],
-    'trusted_extra': ['Driver/C11.lean strengthWithA / dropZeros (ops c11_api_*): driver-local second opinion only, written for canonical '
+    'trusted_extra': ['harness/py2lean3_classical.py on top of harness/py2lean2.py (Python-AST -> Lean translator, second mode, driver `classical`: `e.a[k] = v`, `del`, `except C as e: raise D from e`, `n * [e]`), lean/PyamgV/Model/ExtPy3ClassicalRt.lean + ExtPy2Rt.lean + ExtPyRt.lean (CPython semantics on the PyVal universe, event semantics of opaque objects) and the mock objects of harness/extpy2.py: exercised on every run by the exact comparison (result, exception class, whole trace) of the generated wrappers with the REAL functions executed against the mocks, on the theorem grids (op ext_py3_classical_grid: the very runs the theorems are about) and on seeded random worlds (op ext_py3_classical_call)',
+                      'Driver/C11.lean strengthWithA / dropZeros (ops c11_api_*): driver-local second opinion only, written for canonical '
                       'input: on a non-canonical storage it is fed the sorted copies and compared with the code row by row as dense '
                       'meanings, as are the proof-side operators c11_p_* on the public-function path (every other model, the composed '
                       'glue ext_c11_api_* and the AIR models included, gets the arrays exactly as stored); the glue the '
@@ -1839,7 +1841,15 @@ def part_glue(ctx, n_cases, nmax):
     B.flush()
 
 
+def part_pylogic3(ctx):
+    """extension E58: the wrappers of pyamg/classical/interpolate.py as GENERATED from the working tree
+    (harness/py2lean3_classical.py, Generated/PyLogic3_classical.lean) vs the real functions executed against mock objects"""
+    import extpy3_classical
+    extpy3_classical.part_pylogic3(ctx, extpy3_classical.INTERP_FNS, ctx.scale(60, 2000), lambda c, lines: c.lean(lines))
+
+
 def run(ctx):
+    part_pylogic3(ctx)
     with guarded_kernels():
         if ctx.quick:
             part_interp(ctx, 300, 12, 80, 80, 30)
